@@ -20,6 +20,9 @@ abbrev Out (α : Type) := Except Err α
 
 def sp (n : Nat) : Bytes := List.replicate n 32
 
+/-- the bytes of an ASCII string literal (kernel-reducible, unlike `String.toUTF8`) -/
+def bs (s : String) : Bytes := s.toList.map fun c => UInt8.ofNat c.toNat
+
 /-- the 12-column `defaultGenBankIndent` -/
 def indent : Bytes := sp 12
 
@@ -112,7 +115,7 @@ def Registry.typeOf (reg : Registry) (name : Bytes) : QType :=
   else if name ∈ reg.toggle then .toggle
   else .unknown
 
-def namesOf (xs : List String) : List Bytes := xs.map str
+def namesOf (xs : List String) : List Bytes := xs.map bs
 
 /-- the initial lists of insdc.go:64-99 -/
 def Registry.default : Registry where
@@ -261,19 +264,19 @@ normalises other values; those print `??-???-????` here and are outside the mode
 def Date.text (d : Date) : Bytes :=
   if d.valid then
     zpad 2 d.day.toNat ++ [45] ++ monthAbbr.getD (d.month.toNat - 1) [] ++ [45] ++ zpad 4 d.year.toNat
-  else str "??-???-????"
+  else bs "??-???-????"
 
 /-- `Topology.String()` -/
 def topologyText (t : Int) : Bytes :=
-  if t = 0 then str "linear" else if t = 1 then str "circular" else []
+  if t = 0 then bs "linear" else if t = 1 then bs "circular" else []
 
 /-- `Segment.Len()` of the CONTIG region -/
 def contigLen (f : Fields) : Int := Int.ofNat (f.contigTail - f.contigHead).natAbs
 
 /-- `"%-12s%-17s %10d bp %6s     %-9s%s %s"` -/
 def locusLine (f : Fields) (length : Int) : Bytes :=
-  padRight 12 (str "LOCUS") ++ padRight 17 f.locusName ++ [32] ++ padLeft 10 (itoaB length) ++
-  str " bp " ++ padLeft 6 f.molecule ++ sp 5 ++ padRight 9 (topologyText f.topology) ++
+  padRight 12 (bs "LOCUS") ++ padRight 17 f.locusName ++ [32] ++ padLeft 10 (itoaB length) ++
+  bs " bp " ++ padLeft 6 f.molecule ++ sp 5 ++ padRight 9 (topologyText f.topology) ++
   f.division ++ [32] ++ f.date.text
 
 /-! ### feature table (insdc.go:25-61, 323-357) -/
@@ -313,7 +316,7 @@ def featureText (reg : Registry) (f : QFeature) : Out Bytes :=
   if f.key.length > 16 then .error .panic
   else if !propsOk f.props then .error .panic
   else
-    .ok (sp 5 ++ f.key ++ sp (16 - f.key.length) ++ str f.loc.print ++
+    .ok (sp 5 ++ f.key ++ sp (16 - f.key.length) ++ bs f.loc.print ++
       ((propsItems f.props).flatMap fun kv => 10 :: qualifierFmt reg (sp 21) kv.1 kv.2))
 
 /-- `INSDCFormatter{table, "     ", 21}.String()` -/
@@ -331,21 +334,21 @@ def tableText (reg : Registry) : List QFeature → Out Bytes
 def dblinkText : List (Bytes × Bytes) → Bool → Bytes
   | [], _ => []
   | (k, v) :: rest, first =>
-    (if first then str "DBLINK      " else indent) ++ k ++ str ": " ++ v ++ [10] ++ dblinkText rest false
+    (if first then bs "DBLINK      " else indent) ++ k ++ bs ": " ++ v ++ [10] ++ dblinkText rest false
 
 /-- one `REFERENCE` block; the pad `strings.Repeat(" ", 3-len(Itoa(n)))` panics when the number
 has more than three characters and `Info` is not empty -/
 def referenceText (r : Reference) : Out Bytes := do
   let num := itoaB r.number
   let head ←
-    if r.info.isEmpty then pure (str "REFERENCE   " ++ num)
+    if r.info.isEmpty then pure (bs "REFERENCE   " ++ num)
     else if num.length > 3 then throw .panic
-    else pure (str "REFERENCE   " ++ num ++ sp (3 - num.length) ++ r.info)
+    else pure (bs "REFERENCE   " ++ num ++ sp (3 - num.length) ++ r.info)
   let sub (name : String) (v : Bytes) : Bytes :=
-    if v.isEmpty then [] else str name ++ addPrefix indent v ++ [10]
+    if v.isEmpty then [] else bs name ++ addPrefix indent v ++ [10]
   pure (head ++ [10] ++ sub "  AUTHORS   " r.authors ++ sub "  CONSRTM   " r.group ++
     sub "  TITLE     " r.title ++ sub "  JOURNAL   " r.journal ++
-    (match r.pubmed with | some v => str "   PUBMED   " ++ v ++ [10] | none => []) ++
+    (match r.pubmed with | some v => bs "   PUBMED   " ++ v ++ [10] | none => []) ++
     sub "  REMARK    " r.comment)
 
 def referencesText : List Reference → Out Bytes
@@ -361,7 +364,7 @@ def extraText (name value : Bytes) : Bytes := padRight 12 name ++ addPrefix inde
 /-- `Contig.String()` -/
 def contigText (f : Fields) : Bytes :=
   if f.contigAcc.isEmpty then []
-  else str "join(" ++ f.contigAcc ++ [58] ++ itoaB (f.contigHead + 1) ++ str ".." ++ itoaB f.contigTail ++ [41]
+  else bs "join(" ++ f.contigAcc ++ [58] ++ itoaB (f.contigHead + 1) ++ bs ".." ++ itoaB f.contigTail ++ [41]
 
 /-- the header part: LOCUS … extra fields -/
 def headerText (f : Fields) (length : Int) : Out Bytes := do
@@ -371,20 +374,20 @@ def headerText (f : Fields) (length : Int) : Out Bytes := do
     | some (h, t) =>
       -- `gts.Range(h, t)` panics unless h < t
       if t ≤ h then throw .panic
-      else pure (str " REGION: " ++ itoaB (h + 1) ++ str ".." ++ itoaB t)
+      else pure (bs " REGION: " ++ itoaB (h + 1) ++ bs ".." ++ itoaB t)
   let refs ← referencesText f.references
   pure (
     locusLine f length ++ [10] ++
-    str "DEFINITION  " ++ addPrefix indent f.definition ++ str ".\n" ++
-    str "ACCESSION   " ++ f.accession ++ region ++ [10] ++
-    str "VERSION     " ++ f.version ++ [10] ++
+    bs "DEFINITION  " ++ addPrefix indent f.definition ++ bs ".\n" ++
+    bs "ACCESSION   " ++ f.accession ++ region ++ [10] ++
+    bs "VERSION     " ++ f.version ++ [10] ++
     dblinkText f.dblink true ++
-    str "KEYWORDS    " ++ addPrefix indent (wrapSpace (joinWith (str "; ") f.keywords ++ [46])) ++ [10] ++
-    str "SOURCE      " ++ addPrefix indent (wrapSpace f.species) ++ [10] ++
-    str "  ORGANISM  " ++ addPrefix indent (wrapSpace f.organism) ++ [10] ++
-    indent ++ addPrefix indent (wrapSpace (joinWith (str "; ") f.taxon ++ [46])) ++ [10] ++
+    bs "KEYWORDS    " ++ addPrefix indent (wrapSpace (joinWith (bs "; ") f.keywords ++ [46])) ++ [10] ++
+    bs "SOURCE      " ++ addPrefix indent (wrapSpace f.species) ++ [10] ++
+    bs "  ORGANISM  " ++ addPrefix indent (wrapSpace f.organism) ++ [10] ++
+    indent ++ addPrefix indent (wrapSpace (joinWith (bs "; ") f.taxon ++ [46])) ++ [10] ++
     refs ++
-    (f.comments.flatMap fun c => str "COMMENT     " ++ addPrefix indent c ++ [10]) ++
+    (f.comments.flatMap fun c => bs "COMMENT     " ++ addPrefix indent c ++ [10]) ++
     (f.extra.flatMap fun e => extraText e.1 e.2 ++ [10]))
 
 /-- `GenBank.String()` under the registry `reg` -/
@@ -396,15 +399,15 @@ def write (reg : Registry) (r : Record) : Out Bytes := do
     if r.table.isEmpty then pure []
     else do
       let t ← tableText reg r.table
-      pure (str "FEATURES             Location/Qualifiers\n" ++ t ++ [10])
+      pure (bs "FEATURES             Location/Qualifiers\n" ++ t ++ [10])
   let contig := contigText r.fields
-  let contig := if contig.isEmpty then [] else str "CONTIG      " ++ contig ++ [10]
+  let contig := if contig.isEmpty then [] else bs "CONTIG      " ++ contig ++ [10]
   let origin ←
     if olen > 0 then do
       let o ← r.origin.text
-      pure (str "ORIGIN      \n" ++ o)
+      pure (bs "ORIGIN      \n" ++ o)
     else pure []
-  pure (header ++ table ++ contig ++ origin ++ str "//\n")
+  pure (header ++ table ++ contig ++ origin ++ bs "//\n")
 
 /-- a multi-record stream: `WriteSeq` for every record -/
 def writeAll (reg : Registry) : List Record → Out Bytes
